@@ -24,6 +24,12 @@ def lastIndexOf (c : UInt8) : Bytes → Option Nat
 
 def contains (c : UInt8) (s : Bytes) : Bool := (indexOf c s).isSome
 
+def hexDigit (n : Nat) : Char := if n < 10 then Char.ofNat (48 + n) else Char.ofNat (87 + n)
+
+/-- injective text form of a byte string (used as map key) -/
+def hex (s : Bytes) : String :=
+  String.ofList (s.flatMap (fun b => [hexDigit (b.toNat / 16), hexDigit (b.toNat % 16)]))
+
 def colon : UInt8 := 58
 def comma : UInt8 := 44
 def lbrack : UInt8 := 91
